@@ -82,6 +82,11 @@ def Reg.removeExpired (y : Reg) (now : Nat) : Reg :=
   let keep := fun (l : List Bundle) => l.filter (fun b => (verify b now).isOk)
   { y with onetime := fun id => (y.onetime id).map keep, longterm := fun id => (y.longterm id).map keep }
 
+/-- A registry state restored from persistence (`KeyRegistryState` is `Deserialize`): the member's
+    long-term list is whatever was stored — nothing is verified on the way in. -/
+def Reg.restoreLongterm (y : Reg) (id : Nat) (l : List Bundle) : Reg :=
+  { y with longterm := upd y.longterm id (some l) }
+
 /-- One iteration of `latest_key_bundle`. -/
 def latestStep (now : Nat) (acc : Option Bundle) (b : Bundle) : Option Bundle :=
   if !lifetimeOk b now then acc
